@@ -109,3 +109,49 @@ package iterator
 //@     assert [C02:the-stepped-source-returns-with-its-new-key] x == i.index && !isnil(i.keys[x])
 //@   at before call (*mergedIterator).prev#1
 //@     assert [C02:the-cursor-source-is-stepped-before-the-next-largest-is-picked] calls("iterator.IteratorSeeker.Prev") >= old(calls("iterator.IteratorSeeker.Prev")) + 1
+
+// C02: the two-level iterator (an index of data iterators: the blocks of a table, the tables of a level). An absolute
+// move positions the index and then the data iterator it yields, both at the caller's key for Seek; a data iterator
+// that is exhausted (or empty) is left - dropped - before the move goes on to the next or previous one, and the
+// previous one is entered at its last entry.
+//@ func (*indexedIterator).Seek
+//@   props C02
+//@   safety off
+//@   at before call iterator.IteratorSeeker.Seek#1
+//@     assert [C02:the-index-is-sought-at-the-callers-key] sameslice(arg0, key) && recv == i.index
+//@   at before call iterator.IteratorSeeker.Seek#2
+//@     assert [C02:the-data-iterator-is-sought-at-the-callers-key] sameslice(arg0, key) && recv == i.data
+//@   at before call (*indexedIterator).Next#1
+//@     assert [C02:a-block-with-nothing-at-or-after-the-key-is-left-before-moving-on] i.data == nil
+//@ func (*indexedIterator).Last
+//@   props C02
+//@   safety off
+//@   at before call iterator.IteratorSeeker.Last#1
+//@     assert [C02:the-index-goes-to-its-last-entry] recv == i.index
+//@   at before call iterator.IteratorSeeker.Last#2
+//@     assert [C02:the-last-block-is-entered-at-its-last-entry] recv == i.data
+//@   at before call (*indexedIterator).Prev#1
+//@     assert [C02:an-empty-last-block-is-left-before-moving-back] i.data == nil
+//@ func (*indexedIterator).Prev
+//@   props C02
+//@   safety off
+//@   at before call iterator.IteratorSeeker.Prev#1
+//@     assert [C02:the-block-under-the-cursor-is-stepped-first] recv == i.data && i.data != nil
+//@   at before call iterator.IteratorSeeker.Prev#2
+//@     assert [C02:the-index-steps-back-only-with-no-block-in-hand] recv == i.index && i.data == nil
+//@   at before call iterator.IteratorSeeker.Last#1
+//@     assert [C02:the-previous-block-is-entered-at-its-last-entry] recv == i.data
+//@   at before call (*indexedIterator).Prev#1
+//@     assert [C02:an-empty-block-is-left-before-moving-further-back] i.data == nil
+//@ func (*indexedIterator).Next
+//@   props C02
+//@   safety off
+//@   at before call iterator.IteratorSeeker.Next#1
+//@     assert [C02:the-block-under-the-cursor-is-stepped-first] recv == i.data && i.data != nil
+//@   at before call iterator.IteratorSeeker.Next#2
+//@     assert [C02:the-index-steps-on-only-with-no-block-in-hand] recv == i.index && i.data == nil
+//@ func (*indexedIterator).First
+//@   props C02
+//@   safety off
+//@   at before call iterator.IteratorSeeker.First#1
+//@     assert [C02:the-index-goes-to-its-first-entry] recv == i.index
